@@ -121,6 +121,50 @@ func ruleSubjectDelivers() check.Rule {
 						c.OK(key, fd.Pos(), "reaches the observers with the same kind of notification%s", map[bool]string{true: " and empties the observer set", false: ""}[k > 0])
 					}
 				}
+				// a local copy of the single observer is taken before the field is cleared
+				for _, mn := range []string{"ErrorWithContext", "CompleteWithContext"} {
+					fd := meths[mn]
+					if fd == nil || fd.Body == nil {
+						continue
+					}
+					rvT := recvObj(info, fd)
+					var copies, clears []token.Pos
+					ast.Inspect(fd.Body, func(x ast.Node) bool {
+						as, ok := x.(*ast.AssignStmt)
+						if !ok {
+							return true
+						}
+						for i, l := range as.Lhs {
+							if fs := fieldSelOf(info, l, rvT); fs != nil && fs.Sel.Name == "observer" {
+								clears = append(clears, as.Pos())
+							}
+							if i < len(as.Rhs) {
+								if fs := fieldSelOf(info, as.Rhs[i], rvT); fs != nil && fs.Sel.Name == "observer" {
+									copies = append(copies, as.Pos())
+								}
+							}
+						}
+						return true
+					})
+					if len(copies) == 0 || len(clears) == 0 {
+						continue
+					}
+					key := fmt.Sprintf("ro.%s.%s/copy-before-clear", tname, mn)
+					bad := false
+					for _, cp := range copies {
+						// the nearest clear in the same method that precedes the copy by less than the span of the block
+						for _, cl := range clears {
+							if cl < cp && cp-cl < 200 {
+								bad = true
+							}
+						}
+					}
+					if bad {
+						c.Violation(key, fd.Pos(), "the observer field is cleared before the local copy that the deferred notification uses is taken: the copy is nil and the terminal notification panics in the producer's goroutine")
+					} else {
+						c.OK(key, fd.Pos(), "the local copy of the observer is taken before the field is cleared")
+					}
+				}
 				// late subscribers
 				if fd := meths["SubscribeWithContext"]; fd != nil && fd.Body != nil {
 					key := fmt.Sprintf("ro.%s.SubscribeWithContext/late-terminal", tname)
@@ -203,6 +247,49 @@ func ruleSubjectDelivers() check.Rule {
 						}
 						return true
 					})
+					// the removal teardown is registered after the subscriber has been stored: Add runs its argument at once on
+					// a subscription that is already closed, and a removal that runs before the store leaves the subscriber in the set
+					var storePos, addPos token.Pos
+					ast.Inspect(fd.Body, func(x ast.Node) bool {
+						call, ok := x.(*ast.CallExpr)
+						if !ok {
+							return true
+						}
+						sel, ok := ast.Unparen(call.Fun).(*ast.SelectorExpr)
+						if !ok {
+							return true
+						}
+						if sel.Sel.Name == "Store" {
+							if fs := fieldSelOf(info, sel.X, rvS); fs != nil && fs.Sel.Name == "observers" && storePos == token.NoPos {
+								storePos = call.Pos()
+							}
+						}
+						if name, isSub := m.Obj.SubscriptionMethods[model.Callee(info, call)]; isSub && name == "Add" && len(call.Args) == 1 {
+							if lit, isLit := ast.Unparen(call.Args[0]).(*ast.FuncLit); isLit {
+								removes := false
+								ast.Inspect(lit.Body, func(y ast.Node) bool {
+									if c2, ok := y.(*ast.CallExpr); ok {
+										if s2, ok := ast.Unparen(c2.Fun).(*ast.SelectorExpr); ok && s2.Sel.Name == "Delete" {
+											removes = true
+										}
+									}
+									return true
+								})
+								if removes && addPos == token.NoPos {
+									addPos = call.Pos()
+								}
+							}
+						}
+						return true
+					})
+					if storePos != token.NoPos && addPos != token.NoPos {
+						okey := fmt.Sprintf("ro.%s.SubscribeWithContext/store-before-removal", tname)
+						if storePos < addPos {
+							c.OK(okey, fd.Pos(), "the subscriber is stored before its removal teardown is registered")
+						} else {
+							c.Violation(okey, fd.Pos(), "the removal teardown is registered before the subscriber is stored: for a subscriber that is already closed the removal runs first and the subscriber then stays in the observer set for ever")
+						}
+					}
 					rkey := fmt.Sprintf("ro.%s.SubscribeWithContext/registers", tname)
 					if registers {
 						c.OK(rkey, fd.Pos(), "the new subscriber is stored in the observer set")
